@@ -53,7 +53,8 @@ CHECKS = {
         "DESIGN.md §4 C06",
         "Every stream of up to 4 (thorough 5) samples on a 6 (8)-point time grid with every warm-up/normal assignment is delivered to a "
         "real ThroughputCalculator in every ordered partition into batches (every arrival order across clients and every cut), alone and "
-        "with batches of a second task in between. Sample i carries 4^i operations so value*elapsed decodes into which samples were "
+        "with batches of a second task in between; runner-supplied throughput streams (all positive, zero on alternate samples, all zero) "
+        "must be passed through 1:1. Sample i carries 4^i operations so value*elapsed decodes into which samples were "
         "counted and how often: exact for in-order histories, bracketed for out-of-order ones. Exhaustive within the grammar.",
         "Trusted: the oracle (80 lines). Samples share one task start; grid and bounds in the evidence.",
     ),
@@ -79,7 +80,7 @@ CHECKS = {
         "with substring traps) in the first or a later challenge x every list of 1..2 of 14 name/type/tag filters, include and exclude: "
         "kept tasks are the selected ones, same objects, same order, attributes unchanged, every challenge filtered, no empty parallel, "
         "allocator invariants and progress walk hold; malformed specs raise SystemSetupError.",
-        "Trusted: the reference (15 lines) and sched_common invariants. End-to-end racing of filtered schedules is part of the C01 simulation.",
+        "Trusted: the reference (15 lines) and sched_common invariants. Every filtered schedule of <= 2 elements is also raced end to end in the simulation (default schedule).",
     ),
     "C20": (
         "exploration",
@@ -158,8 +159,8 @@ CHECKS = {
         "stateless deviation-bounded exploration (CHESS-style iterative bounding) of complete simulated races: real actors, driver, "
         "allocator, workers, executors and client on a simulated Thespian transport, virtual clock and baton-scheduled executor threads",
         "DESIGN.md §4 C01",
-        "9 schedule shapes (sequential, parallel, completed-by task/any, over-committed, time-based, idle clients, completing task on a "
-        "shared worker) x 4 host/core layouts x service-time profiles x clock offsets; every order of message deliveries (FIFO per pair), "
+        "11 schedule shapes (sequential, parallel, completed-by task/any, over-committed incl. three unequal rows on one worker, time-based, "
+        "idle clients, completing task on a shared worker, two consecutive completed-by steps) x 4 host/core layouts x service-time profiles x clock offsets; every order of message deliveries (FIFO per pair), "
         "due wake-ups, executor-thread steps, time advances (message delays) and handler preemptions within 1 deviation of the default "
         "schedule (2 on completed-by shapes; thorough: 2 everywhere it matters). Oracle on the request log and race-control messages only: "
         "no request of element k+1 before every request of element k completed; exact per-client request counts; exactly one completion "
@@ -172,9 +173,10 @@ CHECKS = {
         "stateless deviation-bounded exploration of complete simulated races including sample shipment, periodic and step-boundary "
         "post-processing and metric hand-over; handler/executor-thread preemption at sync points; final store compared with the request log",
         "DESIGN.md §4 C07",
-        "6 schedule shapes (sequential, parallel, several rows per step on one worker, tasks ending exactly on a worker wake-up, 8 s requests "
-        "across the 30 s periodic post-processing, composite with named sub-requests) x layouts x downsampling {1,2} x sample queue {default,2}; "
-        "all schedules within 1 deviation (2 on the stacked-rows shape, incl. preemption of the wake-up handler by the executor thread). "
+        "8 schedule shapes (sequential, parallel, several rows per step on one worker, tasks ending exactly on a worker wake-up, 8 s requests "
+        "across the 30 s periodic post-processing, composite with named sub-requests, last task of the race ending on a wake-up, completed-by "
+        "with a sibling request in flight) x layouts x downsampling {1,2} x sample queue {default,2}; "
+        "all schedules within 1 deviation (2 on the stacked-rows and end-of-race shapes, incl. preemption of the wake-up handler by the executor thread). "
         "Oracle: per (task, client) exactly one latency / service_time / processing_time record per logged request with the right labels and "
         "service-time values, one service_time record per dependent sub-request under its own operation, nothing extra; fewer only with "
         "downsampling or a full queue; throughput present and identical with and without downsampling.",
@@ -185,9 +187,10 @@ CHECKS = {
         "fault injection x stateless deviation-bounded schedule exploration of complete simulated races; environment faults (worker death, "
         "user cancellation) are transitions available at every scheduling point; race control emulated around the real BenchmarkCoordinator",
         "DESIGN.md §4 C09",
-        "4 schedule shapes/layouts x faults {API error, unsuccessful result (on-error=abort), connection error (continue), parameter source "
+        "5 schedule shapes/layouts (incl. a task long enough for the 30 s periodic post-processing) x faults {API error, unsuccessful result (on-error=abort), connection error (continue), parameter source "
         "raises, runner raises: at first/middle/last request; driver metrics store raises on the n-th write; track-preparation task raises; "
-        "worker process dies / user cancels at every scheduling point} x all schedules within 1 deviation (thorough 2). Oracle: race "
+        "worker process dies / user cancels at every scheduling point; store failures also while the race lingers in late tear-down} x all "
+        "schedules within 1 deviation (thorough: 2 on a subset, capped per subtree). Oracle: race "
         "control's first terminal message is BenchmarkFailure (cancel: cancelled), never completion, within 40 virtual seconds of the fault; "
         "no results computed, stored in race.json or printed; shutdown terminates every executor thread without deadlock.",
         "Trusted: as C01, plus the 40-line emulation of BenchmarkActor's handlers around the real coordinator. A worker that dies after "
@@ -198,10 +201,10 @@ CHECKS = {
         "explicit-state search (canonical state hashing, replay from the initial state, no deviation bound) over the real MechanicActor, "
         "Dispatcher, NodeMechanicActor and Mechanic helper on the simulated transport, with recording stub supplier/provisioner/launcher",
         "DESIGN.md §4 C12",
-        "6 target-host lists (local, remote, several nodes per host, mixed) x {no fault, launcher fails on each host, a daemon departs during "
+        "8 target-host lists (local, remote, several nodes per host, mixed, the same host repeated non-adjacently) x {no fault, launcher fails on each host, a daemon departs during "
         "start-up} x {a non-target daemon, a daemon without ip capability joins} x preserve-install, plus external clusters: ALL reachable "
         "states under every order of message deliveries (FIFO per pair), daemon joins and (thorough) periodic flush timers. Invariants: "
-        "EngineStarted only after every node group started, once; EngineStopped only after all started groups stopped; per group exactly one "
+        "EngineStarted only after every node group started, once, with every target node assigned to exactly one host; EngineStopped only after all started groups stopped; per group exactly one "
         "stop -> final flush -> store close -> cleanup(preserve flag); every terminal state after a fault has a BenchmarkFailure at race "
         "control, without fault EngineStarted and EngineStopped (no hang); external clusters never touched.",
         "Trusted: mc/actorsim.py (untimed mode), the canonical state function (argument in ASSUMPTIONS), stubs for team loading and node launch.",
@@ -214,7 +217,8 @@ CHECKS = {
         "DESIGN.md §4 C03",
         "12 corpus layouts (1-2 corpora x 1-2 files, with/without action-and-meta-data lines, 1- to 4-byte UTF-8) x 1..5 clients x the worker "
         "groups the real calculate_worker_assignments produces for 4 layouts x bulk {1,2,3,5,1000} x batch {1x,2x,3x} x percentage "
-        "{100,75,50,34,1}, conflict modes {sequential, random} x {index, update}; files of 50001..120007 lines read through offset tables. "
+        "{100,75,50,34,1}, conflict modes {sequential, random} x {index, update}; files of 50001..120007 lines read through offset tables; layer E drives the same corpora end to end through the real load "
+        "generator and bulk runner against the simulated node (what arrives at the cluster is compared). "
         "Oracle: union of all bulks = every document exactly once, contiguous slices in file order per client group, bulk-size field = docs "
         "in body <= configured, action/meta line paired with its document, update bodies wrap the doc, percentage run = prefix of exactly "
         "ceil(p%) bulks, conflicting ids previously emitted by the same reader.",
@@ -228,11 +232,12 @@ CHECKS = {
         "DESIGN.md §4 C10",
         "~1000 (thorough ~3500) single-task models over every combination of loop keys, clients, throughput forms, tag forms, name, "
         "schedule, meta and operation forms; parallel elements (defaults x clients x completed-by x child overrides); challenge forms and "
-        "selection; corpora/document-set variants with indices xor data streams; 28 single-rule violations on 4 base models (duplicate names, "
+        "selection; corpora/document-set variants with indices xor data streams; index bodies and index/component/composable templates "
+        "that use track parameters (rendered content compared); 28 single-rule violations on 4 base models (duplicate names, "
         "default challenges, mixing iterations/time periods, ramp-up rules, completed-by, schema violations, versions, unused/reserved "
         "parameters). Every public attribute of the loaded Track/Challenge/Task/Parallel/Operation/DocumentCorpus/Documents must equal the "
         "reference; invalid tracks must raise a Rally error.",
-        "Trusted: the reference expect(model) (90 lines). Index/template bodies and track plugins are not generated.",
+        "Trusted: the reference expect(model) (90 lines). Track plugins are not generated.",
     ),
     "C13": (
         "exploration",
@@ -240,7 +245,8 @@ CHECKS = {
         "BareProvisioner/ElasticsearchInstaller on a stub distribution archive and the real cleanup, against a dict-merge reference and a "
         "regex template renderer",
         "DESIGN.md §4 C13",
-        "3 config-base variable variants x every ordered selection of 1..3 of 5 cars/mixins (85 lists) x every subset of 4 car parameters "
+        "3 config-base variable variants x every ordered selection of 1..3 of 7 cars/mixins (two of which name a config base twice; one base "
+        "has the same file name at two directory levels) x every subset of 4 car parameters "
         "x data-path modes x preserve: config bases in order without duplicates, variables = config-base < car (list order) < car parameters, "
         "Rally's node variables not overridable in rendered files, every template file rendered to the same relative path (appended across "
         "bases, binary copied verbatim, pre-bundled config removed), cleanup removes the installation and exactly its data paths unless "
@@ -256,10 +262,11 @@ CHECKS = {
         "L1: document {absent, correct, truncated, too long} x archive {absent, correct, truncated, corrupt} x {plain, bz2, gz, zst, zip} x "
         "sizes declared/undeclared x offline x base-url x all download words of length <= 2 (3) over 7 outcomes plus the 10-retry boundary; "
         "L2: every I/O step of a first run as a kill point (3 torn offsets per write), second run on the snapshot; L3: offset-table states and "
-        "table-build crash points on a 100,001-line file. Oracle: if preparation returns, the document has the declared size and the published "
+        "table-build crash points on a 100,001-line file; L4: bundled corpus sets; L5: external decompressor tools with every scripted exit "
+        "status / partial output; second runs after a failed first run. Oracle: if preparation returns, the document has the declared size and the published "
         "content and skip_lines agrees with naive skipping at probe lines; otherwise an exception; the download target never holds a partial "
         "file; the loop terminates; healthy states/environments must succeed. 2 recorded findings.",
-        "Trusted: the scripted endpoint (50 lines), the file-system step hooks (80 lines). Process-kill crash model, library decompression only.",
+        "Trusted: the scripted endpoint (50 lines), the file-system step hooks (80 lines). Process-kill crash model.",
     ),
 }
 
